@@ -564,7 +564,7 @@ func runX7(p *an.Prog, r *an.Result) {
 				}
 				return false
 			}
-			if an.AllPathsGuarded(al.Block(), pred) {
+			if unitGuarded(p, voUnit, al.Block(), pred, 0) {
 				r.OK(name, construct+" under the matching kind arm", al.Pos(), "")
 			} else {
 				r.Bad(name, construct+" not under its kind arm", al.Pos(), "the wrapper's methods call reflect accessors that panic for another kind")
@@ -867,6 +867,22 @@ func x7Bare(p *an.Prog, r *an.Result) {
 						}
 					}
 					ptrArm, isNil := false, false
+					if unitGuarded(p, voUnit, blk, func(cond ssa.Value, taken bool) bool {
+						b, ok := cond.(*ssa.BinOp)
+						if !ok || b.Op != token.EQL || !taken {
+							return false
+						}
+						for _, pair := range [][2]ssa.Value{{b.X, b.Y}, {b.Y, b.X}} {
+							if isPkgType(pair[0].Type(), "reflect", "Kind") && kindOfWhole(pair[0], 0) {
+								if c, ok := an.ConstInt(pair[1]); ok && c == 22 {
+									return true
+								}
+							}
+						}
+						return false
+					}, 0) {
+						ptrArm = true
+					}
 					for _, gd := range an.GuardsAt(blk) {
 						if !gd.True {
 							continue
@@ -1497,4 +1513,30 @@ func valueOfUnit(p *an.Prog) map[*ssa.Function]bool {
 		}
 	}
 	return unit
+}
+
+// unitGuarded: every path to blk passes the guard - in the function itself, or, for a helper of the
+// unit that is called only from it, on the way to every call of the helper (the kind dispatch may
+// hand each kind's arm to a function of its own).
+func unitGuarded(p *an.Prog, unit map[*ssa.Function]bool, blk *ssa.BasicBlock, pred func(ssa.Value, bool) bool, depth int) bool {
+	if an.AllPathsGuarded(blk, pred) {
+		return true
+	}
+	fn := an.Outermost(blk.Parent())
+	if depth > 3 || !unit[fn] {
+		return false
+	}
+	sites := callSitesOf(p, fn)
+	if len(sites) == 0 {
+		return false
+	}
+	for _, cs := range sites {
+		if !unit[an.Outermost(cs.Parent())] || an.Outermost(cs.Parent()) == fn {
+			return false
+		}
+		if !unitGuarded(p, unit, cs.Block(), pred, depth+1) {
+			return false
+		}
+	}
+	return true
 }
